@@ -98,7 +98,7 @@ claim("C06", "history checker over recorded PartsWriter calls (unique chunk ids,
       _TB + " Writers with fewer than 1 + partitions x writes_per_chunk part numbers are outside the domain.", "DESIGN.md 5/C06")
 
 claim("C05", "file-content monitor: every file written by save_cog_with_dask(...).compute() is decoded by two independent readers (rasterio/GDAL, tifffile page/tag inspection) and its part-writer history is recorded at the MPUFileSink boundary; task orders randomised",
-      "Shapes 1..600 px (incl. layouts whose padding adds whole tile rows, D36). Per configuration: GDAL pixels/dtype/band order/padding/transform/CRS/nodata and overview factors; tifffile: IFD count = levels+1 with levels re-derived from the statement, padded shape a "
+      "Shapes 1..600 px (incl. layouts whose padding adds whole tile rows, D36), irregular source chunkings (D37). Per configuration: GDAL pixels/dtype/band order/padding/transform/CRS/nodata and overview factors; tifffile: IFD count = levels+1 with levels re-derived from the statement, padded shape a "
       "multiple of 2^levels, each overview exactly half, tile sizes multiples of 16 and as requested, all (offset,bytecount) intervals contiguous up to EOF with no gap/overlap, every overview "
       "level stored before larger ones, level-0 decode equals the source, nearest overviews drawn from their 2x2 parent block; sink history (ids, sizes >= 4096 but the last, finalise once, "
       "sum = file size). ~115 files quick / 1e4 thorough over shapes 1..256, 3 layouts (sample-axis chunking incl.), 8 dtypes, 10 blocksize lists, 4 compressions, constant-area data, pixel magnitudes (huge / tiny / NaN-inf / ends of the integer range), user-defined CRSs (read-back CRS judged by ellipsoid and where a map point lands), sources in 6 memory layouts, nodata declared via nodata / _FillValue, an earlier save of other pixels that died half way at the same destination, file and fake-S3 destinations, random topological orders and 2-8 threads; non-termination is decided by a logical bound on writes, the wall-clock watchdog is inconclusive.",
